@@ -779,8 +779,10 @@ func rulesC01(w *World, o *Out) {
 		try := w.Func(skw, "Keeper", "TryAttestation")
 		ok = len(pc) >= 1
 		for _, s := range pc {
-			if TopFunc(s.Fn) != try {
-				ok = false
+			for _, rc := range rootCallers(s.Fn) {
+				if rc != try {
+					ok = false
+				}
 			}
 		}
 		o.Check("C01.R5", "processAttestation is called only by TryAttestation (quorum-guarded, C02.R1)", ok, w.Pos(procAtt.Pos()), "callers: "+itoa(len(pc)))
@@ -794,9 +796,10 @@ func rulesC01(w *World, o *Out) {
 		}
 		cs := w.CallersOf(func(c Callee) bool { return c.Static == callee })
 		for _, s := range cs {
-			tf := TopFunc(s.Fn)
-			ok, why := allowed(tf)
-			o.Check("C01.R4", name+" called from "+w.FuncKey(tf), ok, w.Pos(s.Instr.Pos()), why)
+			for _, tf := range rootCallers(s.Fn) {
+				ok, why := allowed(tf)
+				o.Check("C01.R4", name+" called from "+w.FuncKey(tf), ok, w.Pos(s.Instr.Pos()), why)
+			}
 		}
 		o.Count("C01.R4 callers of "+name, len(cs), 1)
 	}
@@ -813,9 +816,11 @@ func rulesC01(w *World, o *Out) {
 		return false
 	}
 	hasBank := func(f *ssa.Function, op string) bool {
-		for _, m := range direct[f] {
-			if m.Op == "bank:"+op {
-				return true
+		for _, g := range unitOf(f) {
+			for _, m := range direct[g] {
+				if m.Op == "bank:"+op {
+					return true
+				}
 			}
 		}
 		return false
